@@ -253,7 +253,11 @@ inline std::string run_isolated(const std::function<std::string(const std::vecto
 
 // ---------------------------------------------------------------------------------------------
 // Library hooks. frg_panic is declared weak by frigg; we define it strongly.
-extern "C" void frg_panic(const char *cstring) { throw verif::Panic{cstring}; }
+namespace verif { inline std::function<void(const char *)> &panic_hook() { static std::function<void(const char *)> h; return h; } }
+extern "C" void frg_panic(const char *cstring) {
+	if(verif::panic_hook()) verif::panic_hook()(cstring);   // engine B: abort the execution when inside a scheduled thread
+	throw verif::Panic{cstring};
+}
 extern "C" void frg_log(const char *cstring) { (void)cstring; }
 
 #if defined(__SANITIZE_ADDRESS__)
